@@ -204,15 +204,12 @@ def r7_teardown(ctx):
     else:
         ctx.ok("C05.R7", loc(fi), "terminate() is a no-op once terminating")
     risky = ("callback", "join", "shutdown")
-    ip = Interp(repo, raising=lambda d: d["name"].rsplit(".", 1)[-1] in risky, facts={})
+    ip = Interp(repo, raising=lambda d: d["name"].rsplit(".", 1)[-1] in risky,
+                call_models={"self.shm_process.is_alive": lambda *a: True, "self.data_server.is_alive": lambda *a: True})
     paths = ip.explore(fi, env={**base, "self.terminating": False})
     ctx.evals(len(paths))
     n = 0
     for p in paths:
-        alive_shm = any(d.key.startswith("truthy(") and "shm_process" in d.key and "is_alive" in d.key and d.value for d in p.decisions)
-        alive_ds = any(d.key.startswith("truthy(") and "data_server" in d.key and "is_alive" in d.key and d.value for d in p.decisions)
-        if not (alive_shm and alive_ds):
-            continue
         n += 1
         ws = [e for e in p.effects if is_call(e, qual="cascade.executor.comms.callback") and len(e.data["args"]) > 1 and isinstance(e.data["args"][1], Obj)
               and e.data["args"][1].cls == MSG + "WorkerShutdown"]
